@@ -377,20 +377,19 @@ void _mzd_compress_l(mzd_t *A, rci_t r1, rci_t n1, rci_t r2) {
 
     if (j < r1 + r2) {
       tmp = mzd_read_bits(A, i, n1 + j - r1, r1 + r2 - j);
-      row[j / m4ri_radix] = tmp;
+      mzd_clear_bits(A, i, j, r1 + r2 - j);
+      mzd_xor_bits(A, i, j, r1 + r2 - j, tmp);
     }
 
-    /* now clear the rest of L2 */
-    j = r1 + r2;
-    mzd_clear_bits(A, i, j, m4ri_radix - (j % m4ri_radix));
-
-    j += m4ri_radix - (j % m4ri_radix);
-
-    /* it's okay to write the full word, i.e. past n1+r2, because
-       everything is zero there anyway. Thus, we can omit the code
-       which deals with last few bits. */
-
-    for (; j < n1 + r2; j += m4ri_radix) { row[j / m4ri_radix] = 0; }
+    /* now clear the rest of L2. Within the matrix everything up to the end of the word holding
+       column n1+r2-1 is zero anyway, so whole words may be cleared - but never beyond the last
+       column: A may be a window whose last word is shared with its parent. */
+    rci_t const stop = MIN(A->ncols, ((n1 + r2 + m4ri_radix - 1) / m4ri_radix) * m4ri_radix);
+    for (j = r1 + r2; j < stop;) {
+      int const len = MIN(m4ri_radix - (j % m4ri_radix), stop - j);
+      mzd_clear_bits(A, i, j, len);
+      j += len;
+    }
   }
 
 #endif
